@@ -1,4 +1,5 @@
 import GeomV.C05.Spec
+import GeomV.C05.Stream
 /-!
 Driver for C05.  `geomv_c05 prep` rewrites `mix` lines into `mdec` lines using the independent OGC
 serializer with a pseudo-random byte-order tree; `geomv_c05 judge` reads lines carrying the
@@ -9,6 +10,7 @@ implementation's answers and prints one verdict per line:
 -/
 namespace GeomV.C05
 open GeomV GeomV.C05.Ogc
+open GeomV.C05.Stream (IOErr Ev SErr Script readS scriptSrc scriptFuel avail)
 
 def lcg (s : Nat) : Nat := (s * 6364136223846793005 + 1442695040888963407) % 2^64
 
@@ -32,6 +34,81 @@ def showRes : Except Err BGeom → String
   | .ok g => "ok " ++ Proto.geomStr g
   | .error _ => "err"
 
+
+/-! ### scripted readers (`rdmix` → `rdscript`) -/
+def ioErrTok : IOErr → String | .eof => "eof" | .other c => toString c
+def evTok : Ev → String
+  | .data c => "d" ++ bytesToHex c
+  | .dataErr c e => "D" ++ bytesToHex c ++ ":" ++ ioErrTok e
+  | .fail e => "f" ++ ioErrTok e
+def parseIOErr (s : String) : Option IOErr := if s = "eof" then some .eof else s.toNat?.map .other
+def parseEv (t : String) : Option Ev :=
+  let body := (t.drop 1).toString
+  if t.startsWith "d" then (hexToBytes body).map .data
+  else if t.startsWith "D" then
+    match body.splitOn ":" with
+    | [h, e] => do let c ← hexToBytes h; let e ← parseIOErr e; pure (.dataErr c e)
+    | _ => none
+  else if t.startsWith "f" then (parseIOErr body).map .fail
+  else none
+
+def cutSizes : List Nat := [0, 1, 1, 2, 3, 5, 8, 13, 16, 17, 64, 1000]
+
+/-- cut `bs` into `data` events: mode 0 one byte each, mode 1 one event, otherwise pseudo-random sizes (incl. empty reads) -/
+def cut (mode : Nat) : Nat → Nat → Bytes → List Ev
+  | 0, _, bs => if bs.isEmpty then [] else [.data bs]
+  | f+1, s, bs =>
+    if bs.isEmpty then [] else
+    let k := if mode == 0 then 1 else if mode == 1 then bs.length else cutSizes.getD (s / 2^33 % 12) 1
+    .data (bs.take k) :: cut mode f (lcg s) (bs.drop k)
+
+def pGeoms : Nat → Tok → Option (List BGeom × Tok)
+  | 0, t => some ([], t)
+  | n+1, t => do
+    let (g, t) ← geomOfToks t
+    let (gs, t) ← pGeoms n t
+    pure (g :: gs, t)
+
+/-- `rdmix seed n geoms…` → `rdscript n k cls geoms… | events…`: the geometries serialized by the independent
+serializer (a pseudo-random order tree each), one after the other, optionally followed by a few more bytes, cut
+into `Read` events, optionally failed at a pseudo-random position; `k` = number of encodings wholly delivered
+before the failure -/
+def prepRdmix (seed : Nat) (n : Nat) (rest : Tok) : String :=
+  match pGeoms n rest with
+  | none => "skip parse-error"
+  | some (gs, _) =>
+    let rec encs (s : Nat) : List BGeom → Option (List Bytes)
+      | [] => some []
+      | g :: gs => do
+        let (t, s') := randTree 3 s
+        let a ← serializeMixed t g
+        let b ← encs s' gs
+        pure (a :: b)
+    match encs (lcg seed) gs with
+    | none => "skip unserializable"
+    | some es =>
+      let s1 := lcg (seed + 17)
+      let s2 := lcg s1
+      let s3 := lcg s2
+      let s4 := lcg s3
+      let trailing : Bytes := [[], [], [2], [0, 0, 0], [1, 1, 0, 0, 0, 0, 0], [0, 0, 0, 0, 9, 1]].getD (s1 / 2^33 % 6) []
+      let total := es.flatten ++ trailing
+      let errMode := s2 / 2^33 % 4
+      let e : IOErr := if s2 / 2^40 % 2 == 0 then .eof else .other (s2 / 2^41 % 5 + 3)
+      let pos := if errMode == 3 && s3 / 2^50 % 2 == 0 then total.length else s3 / 2^33 % (total.length + 1)
+      let mode := s4 / 2^33 % 4
+      let after : List Ev := if s4 / 2^45 % 2 == 0 then [] else [.data (total.drop pos)]
+      let evs : List Ev :=
+        if errMode < 2 then cut mode (total.length * 2 + 8) s4 total
+        else if errMode == 2 then cut mode (pos * 2 + 8) s4 (total.take pos) ++ [.fail e] ++ after
+        else
+          let p' := pos - min pos (s4 / 2^50 % 6)
+          cut mode (p' * 2 + 8) s4 (total.take p') ++ [.dataErr ((total.take pos).drop p') e] ++ after
+      let ends := es.foldl (fun (acc : List Nat × Nat) b => (acc.1 ++ [acc.2 + b.length], acc.2 + b.length)) ([], 0)
+      let k := if errMode < 2 then n else (ends.1.filter (· ≤ pos)).length
+      let cls := ["whole", "whole", "fail", "dataerr"].getD errMode "x" ++ (if errMode < 2 || e == .eof then "" else "-own")
+      s!"rdscript {n} {k} {cls} {" ".intercalate (gs.map Proto.geomStr)} | {" ".intercalate (evs.map evTok)}"
+
 def prepLine (line : String) : String :=
   match tokens line with
   | "mix" :: seed :: rest =>
@@ -42,6 +119,7 @@ def prepLine (line : String) : String :=
       | some bs => s!"mdec {Proto.geomStr g} | {bytesToHex bs}"
       | none => s!"skip unserializable"
     | none => "skip parse-error"
+  | "rdmix" :: seed :: n :: rest => prepRdmix (seed.toNat?.getD 0) (n.toNat?.getD 0) rest
   | _ => line
 
 def geomClass : BGeom → String
@@ -55,6 +133,43 @@ def sameRes (impl : Tok) (m : Except Err BGeom) : Bool :=
   | .error _, ["err"] => true
   | .ok g, "ok" :: t => Proto.geomToks g == t
   | _, _ => false
+
+
+/-! ### verdicts of the streaming lines -/
+def sErrTok : SErr → String
+  | .wkb .eof => "err:eof"
+  | .wkb _ => "err:wkb"
+  | .io c => "err:io" ++ toString c
+
+/-- the model's `n` successive `wkb.Read` calls on one scripted reader, in the harness's output format -/
+def runReads (total : Nat) : Nat → Script → Tok
+  | 0, _ => []
+  | c+1, s =>
+    match readS scriptSrc (scriptFuel s) s with
+    | .ok (g, s') => "ok" :: Proto.geomToks g ++ ["@" ++ toString (total - (avail s').length)] ++ runReads total c s'
+    | .error e => [sErrTok e]
+
+/-- split the harness's output after every `@count` token -/
+def segments : Nat → Tok → List Tok
+  | 0, _ => []
+  | f+1, t =>
+    if t.isEmpty then [] else
+    let a := t.takeWhile (fun x => !x.startsWith "@")
+    if a.length == t.length then [a] else a :: segments f (t.drop (a.length + 1))
+
+/-- the first `k` results are `ok g_i` -/
+def firstAre (gs : List BGeom) (segs : List Tok) : Bool :=
+  match gs, segs with
+  | [], _ => true
+  | g :: gs, s :: segs => s == "ok" :: Proto.geomToks g && firstAre gs segs
+  | _ :: _, [] => false
+
+def membersOf : Tok → Nat → List (BO × BGeom)
+  | "|" :: o :: gt, fuel+1 =>
+    match geomOfToks gt with
+    | some (g, r) => (boOf o, g) :: membersOf r fuel
+    | none => []
+  | _, _ => []
 
 def judgeLine (line : String) : String :=
   let (lhs, rhs) := splitArrow (tokens line)
@@ -178,6 +293,77 @@ def judgeLine (line : String) : String :=
         | _, _, _ => s!"SPEC {cls} {" ".intercalate (rhs.take 4)}"
       | none => "BAD parse"
     | _ => "BAD parse"
+  | "rdscript" :: n :: k :: cls0 :: rest =>
+    let n := n.toNat?.getD 0
+    let k := k.toNat?.getD 0
+    match pGeoms n rest with
+    | some (gs, "|" :: evt) =>
+      match evt.mapM parseEv with
+      | some (s : Script) =>
+        let cls := s!"rdscript-{cls0}-{n}"
+        let want := runReads (avail s).length (n + 1) s
+        if !firstAre (gs.take k) (segments (n + 2) rhs) then
+          s!"SPEC {cls} successive-streaming-reads-of-wholly-delivered-encodings-differ got={" ".intercalate (rhs.take 12)}"
+        else if rhs == want then s!"OK {cls}"
+        else s!"DIFF {cls} model={" ".intercalate (want.drop (want.length - 3))} impl={" ".intercalate (rhs.drop (rhs.length - 3))}"
+      | none => "BAD parse"
+    | _ => "BAD parse"
+  | "seqwr" :: n :: rest =>
+    let ms := membersOf rest 64
+    let cls := s!"seqwr-{n}"
+    match ms.mapM (fun (bo, g) => serialize bo g) with
+    | none => "OK skipped"
+    | some encs =>
+      let all := encs.flatten
+      match rhs with
+      | x :: same :: res =>
+        if x != "x" ++ bytesToHex all then s!"SPEC {cls} bytes-written-to-one-non-Buffer-writer-differ-from-the-OGC-layouts-one-after-the-other"
+        else if same != "same" then s!"SPEC {cls} bytes-written-through-bufio-differ"
+        else if !firstAre (ms.map (·.2)) (segments (ms.length + 2) res) || (segments (ms.length + 2) res).length != ms.length then
+          s!"SPEC {cls} values-written-to-one-stream-are-not-read-back-in-order got={" ".intercalate (res.take 12)}"
+        else
+          let ends := encs.foldl (fun (acc : List String × Nat) b => (acc.1 ++ ["@" ++ toString (acc.2 + b.length)], acc.2 + b.length)) ([], 0)
+          if res.filter (·.startsWith "@") == ends.1 then s!"OK {cls}"
+          else s!"DIFF {cls} bytes-consumed-per-read model={" ".intercalate ends.1}"
+      | _ => s!"SPEC {cls} {" ".intercalate (rhs.take 4)}"
+  | "wrfail" :: lim :: o :: gt =>
+    match geomOfToks gt with
+    | none => "BAD parse"
+    | some (g, _) =>
+      let lim := lim.toNat?.getD 0
+      match serialize (boOf o) g, encode (boOf o) g with
+      | some enc, .ok menc =>
+        if enc.length ≤ lim then
+          if rhs == ["ok", "x" ++ bytesToHex enc] then "OK wrfail-fits"
+          else s!"SPEC wrfail-fits bytes-written-differ-from-OGC-layout got={" ".intercalate (rhs.take 1)}"
+        else if rhs == ["err:io9", "x" ++ bytesToHex (menc.take lim)] then "OK wrfail-short"
+        else s!"DIFF wrfail-short writer-failing-after-{lim}-bytes impl={" ".intercalate (rhs.take 1)}"
+      | _, _ => "OK skipped"
+  | "encbo" :: which :: gt =>
+    match geomOfToks gt with
+    | none => "BAD parse"
+    | some (g, _) =>
+      match rhs with
+      | ["err"] => s!"OK encbo-{which}-rejected"
+      | ["ok", h] =>
+        let hb := hexToBytes ((h.dropEnd 1).toString)
+        if hb.isSome && (hb == serialize .xdr g || hb == serialize .ndr g) then s!"OK encbo-{which}-accepted"
+        else s!"SPEC encbo-{which} bytes-for-a-foreign-byte-order-are-not-an-OGC-layout"
+      | _ => s!"SPEC encbo-{which} {" ".intercalate (rhs.take 3)}"
+  | ["decin", h] =>
+    match hexToBytes ((h.drop 1).toString) with
+    | some bs =>
+      let m := decode bs
+      let cls := if m.isOk then "decin-valid" else "decin-malformed"
+      match rhs with
+      | ["skipped"] => "OK decin-skipped"
+      | state :: res =>
+        if state != "intact" then s!"SPEC {cls} Decode-{state}"
+        else if sameRes res m then s!"OK {cls}"
+        else if res.head? == some "panic" then s!"SPEC {cls} decoder-panicked"
+        else s!"DIFF {cls} model={showRes m} impl={" ".intercalate (res.take 8)}"
+      | _ => "BAD parse"
+    | none => "BAD parse"
   | "skip" :: _ => "OK skipped"
   | _ => "BAD line"
 
